@@ -97,6 +97,18 @@ def run(ck):
         touch = [e for g in bodies for e in g.events("member") if strip_tmpl(e.get("f") or "") in (T + "toWrite", T + "peers", T + "timers")]
         ck.ob("C06-R1", "asyncWrite-only-enqueues", len(pushes) >= 1 and not direct and not touch, f.loc, f,
               "writesQueue.push x%d, direct writes %d, table accesses %d" % (len(pushes), len(direct), len(touch)))
+    # ... and only asyncWrite does: the mailbox is the way *into* the worker.  A write the worker has already filed in a connection's
+    # FIFO (a tail left by a would-block, say) that is sent through the mailbox again comes back behind everything queued for that
+    # connection in the meantime: its bytes reach the peer out of order
+    wq_pushers = [(e, g) for g in prog.flat_library_funcs() for e in g.calls(
+        lambda e: e.base_callee() == "Pistache::PollableQueue::push" and strip_tmpl((e.get("recv") or {}).get("f") or "") == T + "writesQueue")]
+    ck.require(wq_pushers, "no push into Transport::writesQueue found")
+    for e, g in wq_pushers:
+        own = prog.owner(g).base
+        ck.ob("C06-R1", "writesQueue-filled-only-by-asyncWrite@%s" % own.replace(T, ""), own == T + "asyncWrite", e.loc, g,
+              "pushed by asyncWrite" if own == T + "asyncWrite" else
+              "%s pushes into the cross-thread mailbox: a write that is already in a connection's FIFO and goes through the mailbox again is "
+              "appended behind later writes of the same connection" % own.replace("Pistache::", ""))
     # the loop thread drains the whole queue on every notification (the eventfd was consumed by the first pop): a write queued behind
     # one that is skipped must still be moved to its connection's FIFO
     hw = lib.single(prog, T + "handleWriteQueue")
